@@ -251,7 +251,7 @@ def cli_args(root, st, aux):
             a += ["-i", i]
         return "diff", a
     if op == "flatten":
-        return "flatten", [r, st["dest_path"]]
+        return "flatten", [r, os.path.basename(st["dest_path"]) if st.get("rel_dest") else st["dest_path"]]
     if op == "info":
         return "info", [r]
     if op == "hash":
@@ -323,7 +323,7 @@ def run_impl(scn, scratch, keep=False, snap=False):
         hs0 = hist_state(root) if snap else None
         if snap:
             impl.audit_start(base)
-        outcome, out = impl.run_cli(cmd, argv)
+        outcome, out = impl.run_cli(cmd, argv, cwd=aux if st.get("rel_dest") else None)
         audit = impl.audit_stop() if snap else None
         after = manifest_listing(root)
         fs_changed = None
